@@ -3,6 +3,7 @@ import itertools
 from check import Property
 from props import pcutil as pu
 from props import nodeutil as nu
+from props import routeutil as ru
 
 ALG = "-|1:44160000,2:43fa0000,3:43c80000"
 LETTERS = {
@@ -163,6 +164,9 @@ class C05(Property):
                 s.add("P.1.%s" % nu.ipv4_packet(nu.node_ip(1), nu.node_ip(2), b"\x11"), "A", "O.2")
                 s.add("P.2.%s" % nu.ipv4_packet(nu.node_ip(2), nu.node_ip(1), b"\x22"), "A", "O.1")
                 out.append(s.line())
+        # a live node's public address changes (NAT rebinding, same node id): it re-connects from the new address while the other end
+        # still holds the entry for the old one; within peer timeout + retry horizon both hold each other and payload passes both ways
+        out += ru.rebind_cases(rng, 12 if thorough else 3)
         for pt in ([10, 20, 40] if thorough else [20]):
             for who in (1, 2):
                 s = nu.Scenario()
@@ -206,6 +210,8 @@ class C05(Property):
         return "hs:%s/%s->%s/%s" % (st(qs[0]), st(qs[1]), st(qs[2]), st(qs[3]))
 
     def oracle_node(self, line, impl_out):
+        if " %s " % ru.REBIND_MARK in line:
+            return ru.oracle_rebind(line, impl_out)
         ops = line.split()[1:]
         outs = impl_out.split()
         if len(ops) != len(outs):
